@@ -141,10 +141,19 @@ def canon(e):
             if isinstance(n.func, ast.Name) and n.func.id in ('tuple', 'list', 'set', 'frozenset', 'sorted', 'sum', 'min', 'max', 'dict') and len(n.args) >= 1 \
                     and isinstance(n.args[0], ast.GeneratorExp):
                 n.args[0] = ast.ListComp(elt=n.args[0].elt, generators=n.args[0].generators)
+            if isinstance(n.func, ast.Name) and n.func.id == 'set' and len(n.args) == 1 and not n.keywords and isinstance(n.args[0], ast.ListComp):
+                return ast.SetComp(elt=n.args[0].elt, generators=n.args[0].generators)       # set([e for ..]) == {e for ..}
             return n
 
         def visit_Compare(self, n):
             self.generic_visit(n)
+            if len(n.ops) > 1 and all(isinstance(c, (ast.Name, ast.Constant, ast.Attribute)) for c in n.comparators[:-1]):
+                # a < i < b  ==  a < i and i < b   (the middle operands are plain names / constants: evaluating them twice changes nothing)
+                parts, left = [], n.left
+                for op, right in zip(n.ops, n.comparators):
+                    parts.append(self.visit_Compare(ast.Compare(left, [op], [right])))
+                    left = right
+                return ast.BoolOp(ast.And(), parts)
             if len(n.ops) == 1:
                 op, a, b = n.ops[0], n.left, n.comparators[0]
                 if type(op) in _FLIP:
